@@ -1146,9 +1146,29 @@ package participle
 //@   loop 3 invariant -1 <= rangeindex && rangeindex < len(n.disjunction.nodes)
 //@   loop 3 decreases len(n.disjunction.nodes) - rangeindex
 
-//@ func nullableNodes$1 [C19]
+// canBeEmpty (C08): one step of the least fixed point "can match without consuming a token", written from the property:
+// a production, capture or plain group is as its body; a sequence if all its cells are; a choice or union if one
+// alternative is; ? and * always, ! never; a lookahead group always (it never consumes); a reference only to the
+// EOF token and a literal only as the untyped "" (both match the unconsumed EOF token); ~, self-parsing and custom
+// productions never.
+//@ spec rec seqAllNullable(nullable map[node]bool, s *sequence) bool = s == nil || (nullable[s.node] && seqAllNullable(nullable, s.next))
+//@ spec fn groupNullable(nullable map[node]bool, g *group) bool = g.mode == groupMatchZeroOrOne || g.mode == groupMatchZeroOrMore || (g.mode != groupMatchNonEmpty && nullable[g.expr])
+//@ spec fn nullStep(nullable map[node]bool, n node) bool = ite(typeis(n, *strct), nullable[n.(*strct).expr],
+//@      ite(typeis(n, *sequence), seqAllNullable(nullable, n.(*sequence)),
+//@      ite(typeis(n, *disjunction), exists(k, 0, len(n.(*disjunction).nodes), nullable[n.(*disjunction).nodes[k]]),
+//@      ite(typeis(n, *union), exists(k, 0, len(n.(*union).disjunction.nodes), nullable[n.(*union).disjunction.nodes[k]]),
+//@      ite(typeis(n, *group), groupNullable(nullable, n.(*group)),
+//@      ite(typeis(n, *capture), nullable[n.(*capture).node],
+//@      ite(typeis(n, *lookaheadGroup), true,
+//@      ite(typeis(n, *reference), n.(*reference).typ == lexer.EOF,
+//@      ite(typeis(n, *literal), n.(*literal).s == "" && n.(*literal).t == lexer.EOF, false)))))))))
+//@ func nullableNodes$1 [C19 C08]
 //@   requires (n == nil || wf(n)) && nullable != nil
 //@   pure
+//@   ensures @nullStep n != nil ==> result == nullStep(nullable, n) [C08]
+//@   loop 1 invariant seqAllNullable(nullable, n) == seqAllNullable(nullable, s) [C08]
+//@   loop 2 invariant forall(k, 0, rangeindex + 1, !nullable[n.nodes[k]]) [C08]
+//@   loop 3 invariant forall(k, 0, rangeindex + 1, !nullable[n.disjunction.nodes[k]]) [C08]
 //@   use wfKinds(n) at entry
 //@   use wfDisjunction(n.(*disjunction)) at entry
 //@   use wfStrct(n.(*strct)) at entry
